@@ -35,9 +35,20 @@ def _is_first_pool_worker():
     return len(ident) == 2 and ident[-1] == 1
 
 
-def _child(case, path, q):
+class _KnownUUID:
+    """uuid4() -> a value the watchdog knows, so that only this run's own /dev/shm segments are looked at."""
+
+    def __init__(self, tag):
+        self.tag = tag
+
+    def uuid4(self):
+        return self.tag
+
+
+def _child(case, path, q, tag):
     import logging
     os.setsid()                 # own process group, so the watchdog can kill the whole family
+    BANE.uuid = _KnownUUID(tag)
     logging.disable(logging.CRITICAL)
     if case == "D1":
         r = BANE.filter_image(path, None, step_size=(16, 16), box_size=(32, 32), cores=2)
@@ -130,10 +141,11 @@ def main():
         _image(path, 100, 64, offset=1000.0)
     else:
         _image(path, 64, 48)
-    before = set(os.listdir("/dev/shm"))
+    tag = "verif-repro-%d-%s" % (os.getpid(), case)
+    mine = ["ibkg_" + tag, "irms_" + tag]
     ctx = multiprocessing.get_context("fork")
     q = ctx.Queue()
-    p = ctx.Process(target=_child, args=(case, path, q))
+    p = ctx.Process(target=_child, args=(case, path, q, tag))
     t0 = time.time()
     p.start()
     p.join(WATCHDOG_S)
@@ -151,7 +163,7 @@ def main():
         res = q.get(timeout=1)
     except Exception:       # noqa: BLE001
         pass
-    left = sorted(set(os.listdir("/dev/shm")) - before)
+    left = sorted(n for n in mine if os.path.exists(os.path.join("/dev/shm", n)))
     for n in left:
         try:
             os.unlink(os.path.join("/dev/shm", n))
